@@ -659,6 +659,12 @@ func (f *Frame) calleeFrame(tg modTarget, st *State, reach Term, pos token.Pos, 
 	if strings.HasPrefix(tg.key, "X:") {
 		return // ghost state is not part of anybody's frame
 	}
+	if strings.HasPrefix(tg.key, "G:") && tg.whole {
+		// a package-level variable that the callee declares it writes (the timestamp
+		// state of bsonkit.Now): havocked for the caller, but callers up the chain are
+		// not made to re-declare it - frames are about heap objects
+		return
+	}
 	name := "frame@" + f.prefix + top.site("call:"+con.Func)
 	switch {
 	case tg.all:
